@@ -74,17 +74,29 @@ def run(tier, seed):
     spec = E.make_spec(PID, PROFILE, 'C01 profile: capacity pressure (demands that fit one dimension but not another), '
                        'servers removed with and without their instances, re-added, resized by replacement; plus a '
                        'Loader-level stage: E-master histories on the real Master, C01 oracle on its cell after every cycle')
+    from . import c01units
+    spec['trusted'] = list(spec['trusted']) + list(c01units.TRUSTED)
+    spec['assumptions'] = list(spec['assumptions']) + list(c01units.ASSUMPTIONS)
+    spec['table_sections'] = list(spec['table_sections']) + list(c01units.SECTIONS)
     inner = spec['extra']
 
     def extra(r, cases, obs):
         cov = inner(r, cases, obs)
         cov.update(loader_stage(r, seed, 60 if tier == 'quick' else 3000))
+        # unit spellings (1G = 1024M, 100% = 100): Codec/Units.v, Props/C01Units.v, harness/props/c01units.py
+        from . import c01units
+        u = c01units.stage(r, seed, tier)
+        cov['extra_obligations'] = cov.get('extra_obligations', 0) + u.pop('units_obligations')
+        cov.update(u)
         return cov
     spec['extra'] = extra
     core.standard_run(PID, tier, seed, spec)
 
 
 def replay_case(case):
+    if isinstance(case, dict) and case.get('engine') == 'E-units':
+        from . import c01units
+        return c01units.replay_case(case)
     if isinstance(case, dict) and case.get('engine') == 'E-master':
         from .. import emaster
         hits = []
